@@ -668,6 +668,32 @@ func runParseCase(c *Sexp, budget int, custom customInterp, res []string) (obs p
 		}()
 		rec3 := newRecorder(budget)
 		g3 := buildGrammar(findArg(c, "env"), findArg(c, "root")[0], rec3, true, custom, res)
+		// ... and on a parser graph that has been USED BEFORE, for another input of another length in another
+		// context (a parser value is a description of a language, reusing it must not matter: a combinator that
+		// keeps something of its first parse - an end position, a reader, a result - shows here)
+		func() {
+			defer func() {
+				if r := recover(); r != nil {
+					if _, ok := r.(budgetExceeded); !ok {
+						panic(r)
+					}
+				}
+			}()
+			decoy := make([]fileSpec, len(files))
+			copy(decoy, files)
+			raw := decoy[target].raw
+			if len(raw) > 0 && len(raw)%2 == 0 {
+				raw = raw[:len(raw)-1]
+			} else {
+				raw = append(append([]byte{}, raw...), raw...)
+				raw = append(raw, 'a')
+			}
+			decoy[target] = fileSpec{decoy[target].name, raw}
+			ctxd, tfd := newCtx(decoy, target)
+			rec3.end = int(tfd.Pos(tfd.Len()))
+			parsley.Parse(ctxd, g3.root)
+		}()
+		*rec3 = *newRecorder(budget)
 		ctx3, tf3 := newCtx(files, target)
 		rec3.end = int(tf3.Pos(tf3.Len()))
 		ctx3.EnableTransformation()
